@@ -55,6 +55,13 @@ Proof.
   destruct (Z.eqb_spec k k'); [contradiction|]. rewrite IH. reflexivity.
 Qed.
 
+Lemma sumb_promote f qbs p : (forall r, f (set_prio r p) = f r) -> forall bs, sumb f (promote_bars bs qbs p) = sumb f bs.
+Proof.
+  intros Hf. induction qbs as [|q qbs IH]; intros bs; cbn [promote_bars]; [reflexivity|].
+  rewrite IH. destruct (lookup q bs) as [rq|] eqn:L; [|reflexivity].
+  pose proof (sumb_update f q rq (set_prio rq p) bs L) as E. rewrite Hf in E. lia.
+Qed.
+
 Ltac sum_facts :=
   repeat match goal with
   | L : lookup ?b (bars ?s0) = Some ?r |- context [sumb ?f (update ?b ?r' (bars ?s0))] =>
@@ -67,6 +74,8 @@ Theorem cycle_step_decreases s e s' :
 Proof.
   intros C H R R'.
   destruct e; try discriminate C; clear C; break_step H; use_fifo_pop; unfold mu; simp_state.
+  (* CT_FLUSHBAR releasing parked bars: only priorities change *)
+  all: rewrite ?sumb_promote by (intros; reflexivity).
   all: repeat match goal with
     | Hi : _ && _ = true |- _ => apply andb_prop in Hi as [? ?]
     | Hi : negb _ = true |- _ => apply negb_true_iff in Hi
@@ -90,24 +99,6 @@ Proof.
               match type of W1 with context [if ?c then _ else _] => destruct c end;
               cbn [br_frame br_pending br_after_render br_st set_st exited] in *; rewrite ?W1 in *;
               destruct (exited (br_st _)), (br_after_render _); cbn [negb] in *; lia end).
-  (* CT_FLUSHBAR promoting a queued successor *)
-  all: fold w_frame in *; fold w_work in *.
-  all: try (match goal with
-            | Lb : lookup ?b (bars ?s0) = Some ?rb, Lz : lookup ?z (bars ?s0) = Some ?rz
-              |- context [update ?z (set_prio ?rz ?p) (update ?b ?rc (bars ?s0))] =>
-                destruct (Z.eq_dec z b) as [Ezb|Nzb];
-                [ subst z; rewrite Lb in Lz; injection Lz as Erz; subst rz; rewrite !update_update_same;
-                  pose proof (sumb_update w_frame b rb (set_prio rb p) (bars s0) Lb);
-                  pose proof (sumb_update w_work b rb (set_prio rb p) (bars s0) Lb)
-                | assert (Lz' : lookup z (update b rc (bars s0)) = Some rz) by (rewrite lookup_update_other by exact Nzb; exact Lz);
-                  pose proof (sumb_update w_frame z rz (set_prio rz p) _ Lz');
-                  pose proof (sumb_update w_work z rz (set_prio rz p) _ Lz');
-                  pose proof (sumb_update w_frame b rb rc (bars s0) Lb);
-                  pose proof (sumb_update w_work b rb rc (bars s0) Lb) ];
-                unfold w_frame, w_work in *;
-                cbn [br_frame br_pending br_after_render br_st set_frame set_st set_prio exited set_cancelled] in *;
-                repeat match goal with Hf : br_frame ?r = _ |- _ => rewrite Hf in * end; lia
-            end).
   (* BAR_EXIT *)
   all: match goal with He : bev_step ?st Exit = Some ?b1, Lr : lookup _ (bars _) = Some ?r0 |- _ =>
          assert (Ex : exited st = false /\ exited b1 = true) by
